@@ -375,9 +375,10 @@ class Program(BlockBase):  # R201
         tables_before = set(SYMBOL_TABLES._symbol_tables.keys())
         try:
             return Base.__new__(cls, string, _deepcopy=_deepcopy)
-        except Exception as excinfo:
-            # The parse has failed so remove the symbol tables of any
-            # program units that had already been matched.
+        except BaseException as excinfo:
+            # The parse has failed (possibly with a reader error that
+            # exits) so remove the symbol tables of any program units that
+            # had already been matched.
             for name in set(SYMBOL_TABLES._symbol_tables.keys()) - tables_before:
                 SYMBOL_TABLES.remove(name)
             if isinstance(excinfo, NoMatchError):
